@@ -104,6 +104,33 @@ CHECKS.update({
    note=ALG_NOTE + ' The rank at a point is a lower bound of the generic rank, the manifold dimension (C01) the upper bound. Where the Jacobian entries are irrational the rank is taken from a 60-digit SVD (labelled, not exact).' + BOUNDED_NOTE,
    tech=TECH + 'symbolic differentiation of the executed real function, exact rank over Q; autograd Jacobians with singular-value gap as bounded stand-in'),
 })
+
+EXPL_NOTE = ('Trusted: NumPy/LAPACK/SciPy/cvxpy float64 arithmetic with the stated tolerances and the independent oracles written in the contract file. '
+             'Eigenvalues, SDP/LP optimal values, Cholesky pivots and optimiser output are not reachable by contract-based deduction (no verifier for the numeric kernels): the deciding part is the run-time form of the contracts on enumerated/seeded inputs, labelled bounded and never counted as proved.')
+CHECKS.update({
+ 'C05': dict(level='exploration', ref='DESIGN.md §7 C05',
+   text='Bounded: every necessary criterion (PPT, generalized PPT, CCNR, reduction, swap witness, symmetric / bosonic extension SDPs k=2 (3 thorough)) passes on enumerated structured and seeded random separable states in dims (2,2)..(2,3,2), including boundary, rank-deficient and nearly parallel product terms; two-qubit concurrence / EOF / GME / negativity finite and zero on them. '
+        'Proved core (not claimed as the level): the matrices the criteria test are the partial transposes / realignments / reduction operators of a symbolic rho; the bipartition enumeration of the generalized PPT test is complete and duplicate-free.',
+   note=EXPL_NOTE, tech=TECH + 'here only for the index-algebra core; deciding part: run-time contract evaluation on separable states (bounded stand-in)'),
+ 'C06': dict(level='exploration', ref='DESIGN.md §7 C06',
+   text='Bounded: both-sides threshold probes (beta*(1-1e-6) inside, beta*(1+1e-6) outside) of get_density_matrix_boundary / get_ppt_boundary along random rays and states, batched == per-item, nesting beta_CHA <= beta_(k+1)-ext <= beta_k-ext <= beta_PPT <= beta_DM up to 1e-4, inner-model states at arbitrary parameters accepted by the outer tests. '
+        'Proved core: hf_interpolate_dm places the state at exactly the requested Gell-Mann distance (identity in symbolic rho, beta); get_ppt_boundary hands exactly the partial transpose to get_density_matrix_boundary.',
+   note=EXPL_NOTE + ' cvxpy SolverError in this sandbox (the CHA LP; its own test is in the always-failing baseline set) is counted as skipped, never as a violation.', tech=TECH + 'here only for the interpolation / delegation core; deciding part: run-time contract evaluation along seeded rays (bounded stand-in)'),
+ 'C13': dict(level='exploration', ref='DESIGN.md §7 C13',
+   text='Bounded: on seeded two-qubit states of every rank (Haar, Bures, Werner, isotropic, near-separable, boundary) concurrence / EOF / GME / negativity are finite, in range, related by the closed forms, local-unitary invariant and agree with the pure-state formulas; every variational convex-roof model at random parameters (scales 0.1, 1, 10; ensemble sizes rank..8) is >= the closed form - 1e-7. '
+        'Proved core: the spin-flip matrix whose spectrum get_concurrence_2qubit takes, and get_concurrence_pure(psi)^2 == 2(1 - Tr rho_A^2) for symbolic psi.',
+   note=EXPL_NOTE, tech=TECH + 'here only for the spin-flip / pure-state core; deciding part: run-time contract evaluation on seeded states and model parameters (bounded stand-in)'),
+ 'C14': dict(level='exploration', ref='DESIGN.md §7 C14',
+   text='Exhaustive enumeration of the finite quantifier (exhaustive: true): every constructible Cayley table of order <= 120 satisfies the group axioms over ALL triples, left-regular forms are faithful homomorphisms over all pairs, irreducible blocks are unitary homomorphisms with sum dim^2 = |G| (order <= 24, 120 thorough), '
+        'irrep / partition / Young-diagram / standard-tableau counts equal the pentagonal recurrence, an independent partition generator and the hook-length formula (N <= 60 / 12 / 8 (10)), totient and primality vs a sieve.',
+   note='The inputs are only sizes and every object is a concrete finite table: no value-symbolic contract applies; the contracts are evaluated on the complete finite domain. Trusted: NumPy integer arithmetic, float64 with tolerance 1e-7 for the irreducible blocks, the independent oracles in contracts/c14.py.',
+   tech='exhaustive run-time evaluation of the contracts over the finite quantifier (bounded stand-in, exhaustive)'),
+ 'C20': dict(level='exploration', ref='DESIGN.md §7 C20',
+   text='Bounded: get_matrix_orthogonal_basis on 9 generator classes x dims 2..5 x dependent generators (kind label, structure, Gram = c I, span equality over the stated field, complement orthogonal / independent / structured, dimension count); has_rank_hierarchical_method (r=2,3; k=1..3; real / complex) and is_ABC_completely_entangled_subspace (k=1..3) never certify a subspace with a planted low-rank element / product vector handed over as an orthonormal basis; '
+        'detect_real_matrix_subspace_rank_one never answers "no rank-one element" on a planted one; every point of get_matrix_numerical_range attains the support function in its direction (sizes 2..8). Enumerated core: the (anti)symmetric projector tables of the hierarchy.',
+   note=EXPL_NOTE + ' The certificates are one-sided: only soundness is checked, with a reachability count showing the certificate is actually issued on generic subspaces.',
+   tech='run-time contract evaluation on seeded structured / planted instances (bounded stand-in); exhaustive enumeration of the projector tables'),
+})
 PENDING = 'contracts for this property are not built yet in this revision (work in progress, see DESIGN.md §7/§10)'
 ALL = [f'C{i:02d}' for i in range(1, 21)]
 
